@@ -36,6 +36,8 @@ IsF5(S, e) ==
   /\ EngOp(e, "liquidate") /\ ~e.res.ok /\ e.res.err = "transfer_failure"
   /\ e.calls # <<>> /\ LastCall(e).msg = "reply_9"
   /\ AttemptedFrom(e, "engine") > S.bal["engine"] + Sent(e, "ifund", "engine")
+  \* ... and one of the attempted transfers is the reply's own payment into the insurance fund
+  /\ \E i \in 1..Len(e.xfers) : e.xfers[i].from = "engine" /\ e.xfers[i].to = "ifund"
 
 FindingOf(tag, S, e, T) ==
   IF tag = "C07.live" /\ IsF6(S, e) THEN "F6"
